@@ -7,7 +7,7 @@ from vf import q, qlist, clist, cbool, cnat, copt, frac, fr_json
 ID = 'C11'
 COQ_DIR = 'C11'
 COQ_HEADER = 'From V Require Import Common.Num C11.Model.\nOpen Scope Q_scope.'
-RULE = ('(0) structured families that make state kept between calls matter: single-phase streams with cached views adopted by MultiStream.from_streams, then T/P changed through either side (16); package changes (persistent, or reset-and-restore) to a package with the chemicals at other positions or with other Chemical objects at the same positions, around name-keyed accesses and volumetric totals (24); every unit string x every view through the views\' own get_data/set_data after the unit was converted legitimately elsewhere (24); a view written with another view as the value between streams / phases at different T, P, phase (24); F_vol / volumetric totals re-read after material moved between phases at unchanged overall composition (16); (a) 40 link scenarios in quick (5 per flag subset, all 8 subsets of link_with(flow, phase, TP)) between single-phase streams in different phases with ivol/imass reads, writes and get_flow on both sides in both orders before and after the link; (b) histories of 4-16 operations over a store of 2-3 streams (single-phase Stream and MultiStream, two property packages '
+RULE = ('(0) structured families that make state kept between calls matter: phase streams ms[phase] with used views around a new indexer of the MultiStream (phases setter, package reset, unlink, added phases) (20); Stream.reset_flow with a new phase and flows / totals in every unit (12); single-phase streams with cached views adopted by MultiStream.from_streams, then T/P changed through either side (12); package changes (persistent, or reset-and-restore) to a package with the chemicals at other positions or with other Chemical objects at the same positions, around name-keyed accesses and volumetric totals (18); every unit string x every view through the views\' own get_data/set_data after the unit was converted legitimately elsewhere (24); a view written with another view as the value between streams / phases at different T, P, phase (24); F_vol / volumetric totals re-read after material moved between phases at unchanged overall composition (16); (a) 40 link scenarios in quick (5 per flag subset, all 8 subsets of link_with(flow, phase, TP)) between single-phase streams in different phases with ivol/imass reads, writes and get_flow on both sides in both orders before and after the link; (b) histories of 4-16 operations over a store of 2-3 streams (single-phase Stream and MultiStream, two property packages '
         'of stub chemicals whose molar volume is an injective dyadic function of (chemical, phase, T, P)): reads of the '
         'mol/mass/vol views and totals, get_flow/get_total_flow in 8 units + 3 wrong-dimension units, writes through every view '
         '(imol/imass/ivol item, set_flow, set_total_flow, F_mol/F_mass/F_vol setters), interleaved with T/P/phase/phases setters, '
@@ -24,7 +24,7 @@ ASSUMPTIONS = [
     'float rounding not modelled: values compared to 1e-9 relative; branch decisions are exact because inputs are dyadic; a total-flow setter is not exercised when the current total is a rounding-level residue of an exact cancellation (|F| < 1e-9 sum|x|, possible with the negative test flows)',
     'sparse storage invariant (stored keys = non-zero entries) is C09\'s; molar rows are modelled as dense vectors',
     'what a name -> position dict of MaterialIndexer._index_caches[(phases, chemicals)] holds is C10\'s subject: the model keeps WHICH dict the molar indexer of each stream consults and lets that dict answer for its own (phases, chemicals)',
-    'MultiStream.from_streams: the adopted streams stay ordinary streams of the store (sharing rows and the ThermalCondition object with the new MultiStream); operations that go through the MultiStream\'s _streams dict (its phase / phases setters, _reset_thermo, link/unlink, copy_like as receiver) are C12\'s and skipped',
+    'phase streams (ms[phase], and the streams adopted by MultiStream.from_streams) are ordinary streams of the store registered in the MultiStream\'s _streams dict; the model re-creates their indexers where the MultiStream gets a new MaterialIndexer (phases setter, _reset_thermo), forgets them when it becomes single-phase and renews their property memo in reset_cache; that a phase stream keeps seeing the parent\'s row after other operations (liveness) is C12\'s subject',
     'streams related by proxy() (one shared indexer object) are outside this model (C13/C14); each stream owns its indexer',
     'outside the modelled domain (C12/C13 own them; the model answers XDomain and the harness skips them): link_with / copy_like between streams of different property packages, flow-linking MultiStreams with different phase tuples, copy_like between MultiStreams with different phase sets, expanding the phases of a MultiStream whose data is linked, phases setters that drop or relabel a non-empty phase; a package reset that drops a chemical with non-zero flow; ms[phase] phase views',
     'F_vol reads the mixture molar volume through the stream property memo (_get_property): the memo of the one property these histories read (V) is part of the model (key = phase(s), T, P, normalised composition per phase; reset_cache call sites), for streams that are not proxies of each other; the ideal mixture rule V = sum z_i V_i is used',
@@ -112,7 +112,12 @@ def gen_stream(rng):
 
 OPKINDS = (['read'] * 5 + ['F'] * 2 + ['get_flow'] * 3 + ['get_total'] * 2 + ['set'] * 6 + ['set_flow'] * 4 + ['set_total'] * 2
            + ['setF'] * 2 + ['T'] * 3 + ['P'] * 2 + ['phase'] * 4 + ['phases'] * 3 + ['link'] * 4 + ['unlink'] * 3
-           + ['copy_like'] * 3 + ['thermo'] * 2 + ['rtrip'] * 1 + ['alias'] * 2 + ['get_data'] * 3 + ['set_data'] * 2 + ['assign'] * 3 + ['copy_row'] * 2 + ['from_streams'] * 2)
+           + ['copy_like'] * 3 + ['thermo'] * 2 + ['rtrip'] * 1 + ['alias'] * 2 + ['get_data'] * 3 + ['set_data'] * 2 + ['assign'] * 3 + ['copy_row'] * 2 + ['from_streams'] * 2 + ['sub'] * 3 + ['reset_flow'] * 3)
+
+def gen_reset_flow_op(rng, i):
+    chems = rng.sample(['A_', 'B_', 'C_'], rng.choice([0, 1, 2, 2, 3]))
+    return ['reset_flow', i, rng.choice([None, 'l', 'g', 's', 'g', 'l']), rng.choice([None, None] + list(range(8)) + [5, 6, 7, 8]),
+            rng.choice([None, None, float(rng.choice(VALS[1:7])), 0.0]), [[c, float(rng.choice(VALS[1:7]))] for c in chems]]
 
 def gen_op(rng):
     k = rng.choice(OPKINDS)
@@ -145,6 +150,8 @@ def gen_op(rng):
     if k == 'assign': return [k, i, j, view]
     if k == 'copy_row': return [k, i, view, ph, rng.randrange(8)]
     if k == 'from_streams': return [k, i, [rng.randrange(64) for _ in range(rng.choice([1, 2, 2, 3]))]]
+    if k == 'sub': return [k, i, ph]
+    if k == 'reset_flow': return gen_reset_flow_op(rng, i)
     raise ValueError(k)
 
 def gen_units_case(rng, u, view):
@@ -283,6 +290,56 @@ def gen_package_case(rng):
         ops += [['set_total', 0, rng.choice([5, 6, 7]), float(rng.choice([1, 8, 4096]))], ['F', 0, 'vol'], ['thermo', 0, a], touch(), ['F', 0, 'vol']]
     return {'streams': [st, gen_stream(rng)], 'ops': ops}
 
+def gen_sub_case(rng):
+    """phase streams ms[phase] whose mass / volumetric views were used, then the MultiStream gets a new indexer (phases
+    setter, package reset), becomes single-phase, is unlinked or has phases added by copy_like; then flows change through
+    the MultiStream and through the phase streams and every view of every stream is read"""
+    pkg = rng.choice([0, 0, 1, 2])
+    n = len(PKGS[pkg])
+    def row():
+        r = [float(rng.choice([1, 2, F(1, 2), 3, 8])) for _ in range(n)]
+        if pkg == 1: r[2] = 0.
+        return r
+    phases = sorted(rng.sample(['g', 'l', 's', 'L'], rng.choice([2, 2, 3])))
+    streams = [{'kind': 'M', 'pkg': pkg, 'phases': phases, 'T': rng.choice(TS[:4]), 'P': rng.choice(PS[:3]), 'flow': [row() for _ in phases]},
+               gen_stream(rng)]
+    chem = lambda: rng.choice(PKGS[pkg][:2])
+    ops = []
+    kids = rng.sample(range(len(phases)), rng.randint(1, len(phases)))
+    for r in kids:
+        ops.append(['sub', 0, r])
+    nk = len(kids)
+    for c in range(nk):
+        if rng.random() < 0.8:
+            ops.append(rng.choice([['read', 2 + c, 'mass'], ['read', 2 + c, 'vol'], ['get_flow', 2 + c, rng.randrange(2, 8), 0, chem()],
+                                   ['F', 2 + c, 'vol']]))
+    others = [p for p in ['g', 'l', 's', 'L'] if p not in phases]
+    grow = sorted(phases + rng.sample(others, rng.randint(1, len(others)))) if others else phases
+    ops.append(rng.choice([['phases', 0, grow], ['phases', 0, grow], ['thermo', 0, rng.choice([x for x in range(3) if x != pkg])],
+                           ['unlink', 0], ['phases', 0, sorted(rng.sample(['g', 'l', 's', 'L'], 2))], ['copy_like', 0, 1], ['sub', 0, 0]]))
+    for _ in range(rng.randint(2, 4)):
+        x = rng.choice([0] + [2 + c for c in range(nk)])
+        ops.append(rng.choice([['set', x, rng.choice(['mol', 'mass', 'vol']), rng.randrange(4), chem(), float(rng.choice(VALS[1:7]))],
+                               ['set_flow', x, rng.randrange(8), rng.randrange(4), chem(), float(rng.choice(VALS[1:7]))],
+                               ['read', x, rng.choice(['mass', 'vol'])], ['sub', 0, rng.randrange(4)], ['F', x, 'vol']]))
+    ops += [['read', x, 'mass'] for x in range(2 + nk)]
+    return {'streams': streams, 'ops': ops}
+
+def gen_resetflow_case(rng):
+    """Stream.reset_flow with its rarely used arguments: a new phase together with flows and / or a total in molar, mass and
+    volumetric units (the conversion must use the NEW phase), read back in the same unit"""
+    streams = [gen_stream(rng), gen_stream(rng)]
+    ops = []
+    for _ in range(rng.randint(1, 3)):
+        i = rng.randrange(2)
+        if rng.random() < 0.5: ops.append(['read', i, rng.choice(['vol', 'mass'])])
+        op = gen_reset_flow_op(rng, i)
+        if rng.random() < 0.7: op[2] = rng.choice(['l', 'g', 's'])
+        if rng.random() < 0.6: op[3] = rng.choice([5, 6, 7, 2, 3, 0])
+        ops.append(op)
+        ops.append(rng.choice([['read', i, 'vol'], ['F', i, 'vol'], ['get_total', i, rng.choice([5, 6, 7])], ['read', i, 'mol']]))
+    return {'streams': streams, 'ops': ops}
+
 def gen_link_case(rng, flags):
     """partial/full link between two single-phase streams of one package that are in DIFFERENT phases, with view reads and
     writes on both sides in both orders around it (the cached views must follow the flags exactly)"""
@@ -320,8 +377,8 @@ def gen_link_case(rng, flags):
 ALL_FLAGS = [[f, p, t] for f in (True, False) for p in (True, False) for t in (True, False)]
 
 def gen_cases(rng, tier):
-    n = 120 if tier == 'quick' else 3100
-    m = 5 if tier == 'quick' else 75            # link scenarios per flag subset
+    n = 50 if tier == 'quick' else 2600
+    m = 3 if tier == 'quick' else 75            # link scenarios per flag subset
     cases = []
     for flags in ALL_FLAGS:
         for _ in range(m):
@@ -330,14 +387,18 @@ def gen_cases(rng, tier):
         for view in ('mol', 'mass', 'vol'):
             for _ in range(1 if tier == 'quick' else 6):
                 cases.append(gen_units_case(rng, u, view))
-    for _ in range(24 if tier == 'quick' else 300):
+    for _ in range(18 if tier == 'quick' else 300):
         cases.append(gen_viewcopy_case(rng))
-    for _ in range(16 if tier == 'quick' else 200):
+    for _ in range(12 if tier == 'quick' else 200):
         cases.append(gen_memo_case(rng))
-    for _ in range(16 if tier == 'quick' else 200):
+    for _ in range(12 if tier == 'quick' else 200):
         cases.append(gen_adopt_case(rng))
-    for _ in range(24 if tier == 'quick' else 300):
+    for _ in range(18 if tier == 'quick' else 300):
         cases.append(gen_package_case(rng))
+    for _ in range(20 if tier == 'quick' else 300):
+        cases.append(gen_sub_case(rng))
+    for _ in range(12 if tier == 'quick' else 200):
+        cases.append(gen_resetflow_case(rng))
     for _ in range(n):
         streams = [gen_stream(rng) for _ in range(rng.choice([2, 2, 3]))]
         ops = [gen_op(rng) for _ in range(rng.randint(4, 16))]
@@ -413,6 +474,10 @@ def nonempty_phases(s):
         return [p for p, r in zip(s._imol._phases, s._imol.data.rows) if r.any()]
     return [s.phase] if s._imol.data.any() else []
 
+def is_locked(s):
+    from thermosteam._phase import LockedPhase
+    return (not is_multi(s)) and isinstance(s._imol._phase, LockedPhase)
+
 def rounding_level_total(s, name):
     """the total is an exact cancellation that float rounding turned into a tiny non-zero number (negative test flows): the
     setters branch on `total != 0`, which is then decided by rounding, not by the modelled arithmetic"""
@@ -439,8 +504,33 @@ def apply_op(store, op):
         except Exception as ex:
             ex.resolved = res
             raise
-    if k in ('phase', 'phases', 'thermo', 'rtrip', 'link', 'unlink', 'copy_like') and getattr(s, '_streams', None):
-        return ['skip'], None               # a MultiStream that owns phase streams (from_streams): C12's domain
+    kids = getattr(s, '_streams', None) or {}
+    if k == 'link' and kids:
+        return ['skip'], None               # re-binding the data of a MultiStream that owns phase streams: C12/C13's domain
+    if k == 'thermo' and any(is_multi(c) for c in kids.values()):
+        return ['skip'], None               # _reset_thermo gives a multi-phase child a single-phase indexer: C12's domain
+    if is_locked(s):
+        if (k == 'copy_like' and op[2] % n != i) or (k == 'phases' and len(set(op[2])) == 1 and list(set(op[2]))[0] != s.phase) \
+                or (k == 'reset_flow' and op[2] and op[2] != s.phase):
+            return ['skip'], None           # raises half-way (LockedPhase) after the data was touched
+    if k == 'sub':
+        if not is_multi(s):
+            return ['skip'], None
+        phases = s._imol._phases
+        r = op[2] % len(phases)
+        res = ['sub', i, r]
+        def f():
+            child = s[phases[r]]
+            if not any(child is x for x in store):
+                store.append(child)
+        return res, run(f)
+    if k == 'reset_flow':
+        if is_multi(s):
+            return ['skip'], None
+        cols = [[PKGS[pkg_of(s)].index(c), v] for c, v in op[5]]
+        res = ['reset_flow', i, op[2], op[3], op[4], cols]
+        return res, run(lambda: s.reset_flow(phase=op[2], units=None if op[3] is None else UNITS[op[3]], total_flow=op[4],
+                                             **{c: v for c, v in op[5]}))
     if k == 'from_streams':
         idx = [i] + [j % n for j in op[2]]
         ss = [store[x] for x in idx]
@@ -629,6 +719,10 @@ def cop(o):
     if k == 'assign': return f'(OAssignView {cnat(o[1])} {cnat(o[2])} {VIEW[o[3]]})'
     if k == 'copy_row': return f'(OCopyRow {cnat(o[1])} {VIEW[o[2]]} {cnat(o[3])} {cnat(o[4])})'
     if k == 'from_streams': return f'(OFromStreams {clist([o[1]] + list(o[2]), cnat)})'
+    if k == 'sub': return f'(OSub {cnat(o[1])} {cnat(o[2])})'
+    if k == 'reset_flow':
+        fl = clist(o[5], lambda cv: f'({cnat(cv[0])}, {q(cv[1])})')
+        return f'(OResetFlow {cnat(o[1])} {copt(o[2], cph)} {copt(o[3], cnat)} {copt(o[4], q)} {fl})'
     raise ValueError(k)
 
 def cmat(m):
@@ -672,8 +766,8 @@ def coq_case(case, out):
 def coq_show(case, out):
     return f'(show_case {cutab()} {clist(case["streams"], cinit)} {clist(out["ops"], cop)})'
 
-STRUCT = ('T', 'P', 'phase', 'phases', 'link', 'unlink', 'copy_like', 'thermo', 'rtrip', 'from_streams')
-WRITES = ('set', 'set_flow', 'set_total', 'setF', 'set_data', 'assign', 'copy_row')
+STRUCT = ('T', 'P', 'phase', 'phases', 'link', 'unlink', 'copy_like', 'thermo', 'rtrip', 'from_streams', 'sub', 'reset_flow')
+WRITES = ('set', 'set_flow', 'set_total', 'setF', 'set_data', 'assign', 'copy_row', 'reset_flow')
 def nontrivial(case, out):
     ok = [o[0] for o, b in zip(out.get('ops', []), out.get('obs', [])) if not (isinstance(b, str))]
     return any(k in STRUCT for k in ok) and any(k in WRITES for k in ok)
@@ -782,12 +876,12 @@ def oracle(case):
                     return f'{where}: i{op[2]}.{k} in {UNITS[op[3]]} raised {type(ex).__name__}: {ex}'
                 if type(ex).__name__ != 'DimensionalityError':
                     return f'{where}: wrong-dimension unit {UNITS[op[3]]} for i{op[2]} raised {type(ex).__name__}, not DimensionalityError'
-            if k in ('assign', 'copy_row') or (k == 'from_streams' and type(ex).__name__ != 'ValueError'):
+            if k in ('assign', 'copy_row', 'sub') or (k == 'from_streams' and type(ex).__name__ != 'ValueError'):
                 return f'{where}: raised {type(ex).__name__}: {ex}'
             if k in ('read', 'F', 'alias', 'get_flow', 'get_total'):
                 if not (k in ('get_flow', 'get_total') and e['utab'][op[2]][1] is None):
                     return f'{where}: reading raised {type(ex).__name__}: {ex}'
-            if k in ('unlink', 'copy_like', 'phases', 'phase', 'thermo', 'rtrip') and not (k == 'unlink' and 'locked' in str(ex)):
+            if k in ('unlink', 'copy_like', 'phases', 'phase', 'thermo', 'rtrip') and 'locked' not in str(ex):
                 return f'{where}: raised {type(ex).__name__}: {ex}'
             res = None
         if res is not None and res[0] != 'skip':
@@ -804,6 +898,23 @@ def oracle(case):
                     if not close(got, op[6]): return f'{where}: i{op[2]}.set_data({op[6]}, {UNITS[op[3]]}), get_data gives {got}'
                 elif not close(got, float(fac) * getattr(s, 'i' + op[2])[key]):
                     return f'{where}: i{op[2]}.get_data({UNITS[op[3]]}) = {got}, factor * view = {float(fac) * getattr(s, "i" + op[2])[key]}'
+            if k == 'reset_flow':
+                if op[2] and s.phase != op[2]: return f'{where}: reset_flow(phase={op[2]!r}) left the stream in phase {s.phase!r}'
+                uname = 'kmol/hr' if op[3] is None else UNITS[op[3]]
+                vals = {c: v for c, v in op[5]}
+                if vals and not op[4]:
+                    for c_, v_ in vals.items():
+                        got = s.get_flow(uname, c_)
+                        if not close(got, v_): return f'{where}: reset_flow wrote {v_} {uname} of {c_} (phase={op[2]!r}), get_flow gives {got}'
+                if op[4]:
+                    got = s.get_total_flow(uname)
+                    if not close(got, op[4]): return f'{where}: reset_flow(total_flow={op[4]} {uname}, phase={op[2]!r}), get_total_flow gives {got}'
+                    tot_ = sum(vals.values())
+                    if vals and tot_:
+                        for c_, v_ in vals.items():
+                            got = s.get_flow(uname, c_)
+                            if not close(got, op[4] * v_ / tot_):
+                                return f'{where}: reset_flow: composition written in {uname} not kept: {c_} is {got}, expected {op[4] * v_ / tot_}'
             if k == 'assign' and want is not None:
                 got = np.asarray(getattr(s, op[3]).to_array(), float)
                 if not all(close(a, b) for a, b in zip(got, want)):
@@ -844,13 +955,15 @@ def oracle(case):
 def finding_key(case, msg):
     import re
     m = re.search(r'op#\d+ (\w+)', msg)
-    what = 'keyed' if 'name-keyed' in msg else 'units' if 'dimension' in msg else 'viewcopy' if 'read back' in msg and 'view' in msg else 'totals' if 'F_vol' in msg or 'F_mass' in msg else 'alias' if 'cached views' in msg else ('vol' if 'vol[' in msg or 'vol view' in msg else ('mass' if 'mass' in msg else 'other'))
+    what = 'reset_flow' if 'reset_flow' in msg else 'keyed' if 'name-keyed' in msg else 'units' if 'dimension' in msg else 'viewcopy' if 'read back' in msg and 'view' in msg else 'totals' if 'F_vol' in msg or 'F_mass' in msg else 'alias' if 'cached views' in msg else ('vol' if 'vol[' in msg or 'vol view' in msg else ('mass' if 'mass' in msg else 'other'))
     return f'C11:{m.group(1) if m else "?"}:{what}'
 
 # minimised histories of the defects found in the unchanged tree (all repaired in /repo now: 071a958, efddd9f, 9fbe2c1,
 # a0ac858, 1c6e5d7, 7cf5a9b; they stay as regression cases); they run first
-CORPUS_NAMES = ['adopted_stream_rebinds_TP', 'package_reset_keyed_access', 'package_reset_same_positions_total', 'warm_unit_cache_wrong_dimension', 'view_written_with_view', 'memo_phase_redistribution', 'partial_link_different_phases', 'memo_phase', 'unlink_shared_cache', 'link_shared_cache', 'expand_phases_cache', 'copy_like_phase_indexer', 'reset_chemicals_container']
+CORPUS_NAMES = ['phase_stream_views_after_new_phases', 'reset_flow_new_phase_volumetric', 'adopted_stream_rebinds_TP', 'package_reset_keyed_access', 'package_reset_same_positions_total', 'warm_unit_cache_wrong_dimension', 'view_written_with_view', 'memo_phase_redistribution', 'partial_link_different_phases', 'memo_phase', 'unlink_shared_cache', 'link_shared_cache', 'expand_phases_cache', 'copy_like_phase_indexer', 'reset_chemicals_container']
 CORPUS = [
+    {'streams': [{'kind': 'M', 'pkg': 0, 'phases': ['g', 'l'], 'T': 320.0, 'P': 65536.0, 'flow': [[1.0, 2.0, 0.0], [0.0, 0.5, 3.0]]}, {'kind': 'S', 'pkg': 0, 'phase': 's', 'T': 320.0, 'P': 65536.0, 'flow': [1.0, 1.0, 1.0]}], 'ops': [['sub', 0, 1], ['sub', 0, 0], ['read', 2, 'mass'], ['read', 2, 'vol'], ['get_flow', 3, 6, 0, 'A_'], ['phases', 0, ['g', 'l', 's']], ['set', 0, 'mol', 1, 'A_', 4.0], ['read', 2, 'mass'], ['read', 2, 'vol'], ['set', 3, 'mass', 0, 'B_', 8.0], ['read', 0, 'mass'], ['thermo', 0, 1], ['read', 2, 'vol'], ['set', 2, 'vol', 0, 'B_', 2.0], ['read', 0, 'vol'], ['phase', 0, 'l'], ['read', 2, 'mass']]},   # phase_stream_views_after_new_phases
+    {'streams': [{'kind': 'S', 'pkg': 0, 'phase': 'l', 'T': 320.0, 'P': 65536.0, 'flow': [2.0, 0.5, 1.0]}, {'kind': 'S', 'pkg': 2, 'phase': 'g', 'T': 384.0, 'P': 131072.0, 'flow': [1.0, 3.0, 0.0]}], 'ops': [['read', 0, 'vol'], ['reset_flow', 0, 'g', 5, None, [['A_', 2.0], ['B_', 0.5]]], ['get_flow', 0, 5, 0, 'A_'], ['read', 0, 'vol'], ['reset_flow', 1, 'l', 6, 8.0, [['A_', 1.0], ['C_', 3.0]]], ['get_total', 1, 6], ['read', 1, 'vol'], ['reset_flow', 1, 's', 2, None, [['B_', 4.0]]], ['reset_flow', 0, None, 9, 1.0, []], ['read', 0, 'mol']]},   # reset_flow_new_phase_volumetric
     {'streams': [{'kind': 'S', 'pkg': 0, 'phase': 'l', 'T': 320.0, 'P': 65536.0, 'flow': [2.0, 0.5, 1.0]}, {'kind': 'S', 'pkg': 0, 'phase': 'g', 'T': 384.0, 'P': 131072.0, 'flow': [1.0, 3.0, 0.0]}], 'ops': [['read', 1, 'vol'], ['get_flow', 1, 6, 0, 'A_'], ['from_streams', 0, [1]], ['T', 2, 256.0], ['read', 1, 'vol'], ['F', 1, 'vol'], ['set', 1, 'vol', 0, 'B_', 8.0], ['P', 1, 65536.0], ['read', 2, 'vol'], ['F', 2, 'vol']]},   # adopted_stream_rebinds_TP
     {'streams': [{'kind': 'M', 'pkg': 0, 'phases': ['g', 'l'], 'T': 320.0, 'P': 65536.0, 'flow': [[1.0, 2.0, 0.0], [0.0, 0.5, 3.0]]}, {'kind': 'M', 'pkg': 0, 'phases': ['g', 'l'], 'T': 320.0, 'P': 65536.0, 'flow': [[1.0, 1.0, 1.0], [2.0, 2.0, 2.0]]}], 'ops': [['get_flow', 0, 0, 1, 'C_'], ['set', 0, 'mol', 0, 'A_', 4.0], ['thermo', 0, 1], ['get_flow', 0, 0, 1, 'C_'], ['get_flow', 0, 2, 1, 'C_'], ['set', 0, 'mol', 0, 'A_', 2.0], ['set_flow', 0, 3, 1, 'B_', 8.0], ['get_data', 0, 'mol', 1, 0, 'A_'], ['get_flow', 1, 0, 1, 'C_'], ['read', 0, 'mass']]},   # package_reset_keyed_access
     {'streams': [{'kind': 'S', 'pkg': 0, 'phase': 'l', 'T': 320.0, 'P': 65536.0, 'flow': [2.0, 0.5, 1.0]}, {'kind': 'M', 'pkg': 2, 'phases': ['g', 'l'], 'T': 320.0, 'P': 65536.0, 'flow': [[1.0, 2.0, 0.0], [0.0, 0.5, 3.0]]}], 'ops': [['F', 0, 'vol'], ['thermo', 0, 2], ['F', 0, 'vol'], ['set_total', 0, 6, 4096.0], ['get_total', 0, 6], ['read', 0, 'vol'], ['get_total', 1, 5], ['thermo', 1, 0], ['get_total', 1, 5], ['read', 1, 'vol']]},   # package_reset_same_positions_total
